@@ -1067,6 +1067,9 @@ def check(ctx):
     from . import c05
     with ctx.shared({'C05': 'C02.6'}):
         c05._model_removal(ctx)
+        # an identity that is given back is free for the probe: identity 0
+        # counts as an identity in every presence test
+        c05.identity_presence_tests(ctx)
 
 
 _S = 'lib/python/treadmill/scheduler/__init__.py'
